@@ -5,7 +5,7 @@ Behaviour replay, spec -> code:
   1. TLC model-checks Memo.tla (quick: every history of <= 3 calls over 21 core bases and of <= 2 calls over all
      memo-relevant bases; thorough: <= 3 calls over all memo-relevant bases, <= 4 calls over the core bases and every
      2-call history of the full alphabet - without the container variants - in every layout) and refutes the defective design variants
-     (MemoMC_bug_*.cfg: seven in quick, all thirteen in thorough): the refinement Memo => MemoFree is not vacuous.
+     (MemoMC_bug_*.cfg: eight in quick, all fourteen in thorough): the refinement Memo => MemoFree is not vacuous.
   2. Histories are taken from TLC:
        pair   - the state graph of all 2-call histories (-dump dot,actionlabels) gives the (writer, reader, table)
                 triples of calls that share a memo table with overlapping keys (res.pairs of the second state);
@@ -36,7 +36,7 @@ BUG_CFGS = {'projkey': 'ResultIndependentOfHistory', 'dbetakey': 'ResultIndepend
             'raw45': 'LayoutIndependent', 'rawxx': 'LayoutIndependent', 'godaddr': 'ResultIndependentOfHistory',
             'demes': 'ResultIndependentOfHistory', 'perturb': 'ArgumentsUnchanged',
             'hashorder': 'ResultIndependentOfHashSeed', 'sfslist': 'ArgumentsUnchanged',
-            'kernelstate': 'ResultIndependentOfHistory', 'latecopy': 'ResultIsFresh', 'vector': 'ArgumentsUnchanged'}
+            'kernelstate': 'ResultIndependentOfHistory', 'latecopy': 'ResultIsFresh', 'vector': 'ArgumentsUnchanged', 'maskrebind': 'ArgumentsUnchanged'}
 TABLES = ['proj', 'dbeta', 'part', 'precalc', 'multinom', 'bb', 'godambe']
 
 
@@ -104,7 +104,7 @@ def simulate(cfg, num, seed):
     return r, hs[:num]
 
 
-QUICK_BUGS = ['dbetakey', 'godaddr', 'raw45', 'kernelstate', 'hashorder', 'latecopy', 'vector']     # quick: one per mechanism; thorough: all
+QUICK_BUGS = ['dbetakey', 'godaddr', 'raw45', 'kernelstate', 'hashorder', 'latecopy', 'vector', 'maskrebind']     # quick: one per mechanism; thorough: all
 
 
 def refute_bug_designs(workers=2, names=None):
@@ -194,6 +194,7 @@ def _mutations(rec):
     mut('ResultIndependentOfHistory', lambda m: m['out'].__setitem__('vals', m['out']['vals'][:-1] + ['12345/7']) if m['out']['vals'] else False)
     mut('ResultIndependentOfHashSeed', lambda m: m['fresh'][-1].__setitem__('dig', 'y' + m['fresh'][-1]['dig'][1:]) if len(m['fresh']) > 1 else False)
     mut('ArgumentsUnchanged', lambda m: m['args'][0].__setitem__('after', 'z' + m['args'][0]['after'][1:]) if m['args'] else False)
+    mut('ArgumentsUnchanged', lambda m: m['args'][0].__setitem__('oafter', 'u' + m['args'][0]['oafter'][1:]) if m['args'] else False, tag='owner')
     if rec['site'].startswith('Integration.'):
         mut('ResultIsFresh', lambda m: m['args'][0].__setitem__('shares', True))
         mut('ResultIsFresh', lambda m: m['args'][0].__setitem__('afterw', 'v' + m['args'][0]['afterw'][1:]), tag='follow-up')
@@ -311,7 +312,9 @@ def what_of(rec, clause, hist):
     o = rec['out']
     extra = ''
     if clause in ('ArgumentsUnchanged',):
-        extra = ' (modified: %s)' % ', '.join(a['name'] for a in rec['args'] if a['before'] != a['after'])
+        extra = ' (modified: %s)' % ', '.join([a['name'] for a in rec['args'] if a['before'] != a['after']] +
+                                              ['the array that OWNS the memory of the view ' + a['name'] + ' (data or mask)' for a in rec['args']
+                                               if a['before'] == a['after'] and a.get('obefore') != a.get('oafter')])
     elif clause == 'ResultIsFresh':
         extra = ' (result shares memory with: %s; %s; rewritten by in-place work on the result: %s)' % (
             ', '.join(a['name'] for a in rec['args'] if a['shares']) or 'nothing',
@@ -546,6 +549,7 @@ def _run(ctx, tmpd, t0):
         'non_integrator_results_sharing_memory_with_an_argument_observed_not_judged': shared,
         'zero_duration_integrator_calls_replayed': zero,
         'integrator_results_rewritten_in_place_then_arguments_re_digested': sum(1 for r in recs if any(a.get('wrote') for a in r['args'])),
+        'arguments_that_are_views_of_an_owner_owner_digested_before_and_after': sum(1 for r in recs for a in r['args'] if a.get('is_view')),
         'vector_argument_containers_replayed': {k: sorted(v) for k, v in sorted(conts.items())},
         'exhaustive': False, 'timing_s': timing,
     }
